@@ -102,7 +102,7 @@ int fp_param_get(void) {
 
 void fp_param_set(int param) {
 	bn_t t0, t1, t2, p;
-	int f[10] = { 0 };
+	int f[10] = { 0 }, id = core_get()->fp_id;
 
 	bn_null(t0);
 	bn_null(t1);
@@ -111,6 +111,7 @@ void fp_param_set(int param) {
 
 	/* Suppress possible unused parameter warning. */
 	(void) f;
+	(void) id;
 
 	RLC_TRY {
 		bn_new(t0);
@@ -709,6 +710,14 @@ void fp_param_set(int param) {
 			default:
 				fp_param_set_any_dense();
 				core_get()->fp_id = 0;
+				break;
+#define FP_PARAM_ANY
+#endif
+#ifndef FP_PARAM_ANY
+			default:
+				/* No parameter with this identifier at this field size. */
+				core_get()->fp_id = id;
+				RLC_THROW(ERR_NO_VALID);
 				break;
 #endif
 		}
